@@ -16,13 +16,16 @@ RULE = ('S3: exhaustive layout construction (channels -1..257 x mapping families
         'opus_multistream_encode with scripted per-stream encoders (real repacketizer; curr_max values, return value and bytes); '
         'opus_projection_decoder_create/init on exported and arbitrary matrices; in_float/out_float/in_int24 in the exact binary32 '
         'domain, out_int24 with arbitrary floats and accumulators up to the int32 limits; '
-        'mapping_matrix in_short/out_short on all ten built-in matrices in the exact float domain, out_short with accumulators '
+        'all six multiply functions (in/out x short/float/int24) also on random NON-SQUARE matrices (rows != cols, 1..7), so that a '
+        'wrong column-major stride shows; mapping_matrix in_short/out_short on all ten built-in matrices in the exact float domain, out_short with accumulators '
         'placed on the int16 saturation boundary (sum = 32766..32769, -32770..-32767), and every impulse round trip. '
         'S4: RFC 7845/8486 layouts for every family x channels 1..255; real surround / multistream / projection encoders '
         '(all rates, 2.5..120 ms, float and int16, CBR/VBR, loss) -> packet structure -> real multistream decoder against '
         'stand-alone decoders bit for bit; the same with 40..120 ms multi-frame packets, unconstrained VBR at 80..135 kb/s per '
         'stream and loud/quiet 20 ms blocks (sub-frame sizes on both sides of 252 bytes; the number of such packets is printed); '
-        'unit impulses through mixing and demixing matrices of all orders. '
+        'projection decoders created with random non-square demixing matrices (channels < streams+coupled) decoded through '
+        'opus_projection_decode / _decode24 / _decode_float against the matrix applied to stand-alone decoder outputs of the '
+        'same format; unit impulses through mixing and demixing matrices of all orders. '
         'A case is distinct by its (op, outcome kind) class (S3) or its (encoder kind, family, channels, rate, frame size, API) tuple (S4)')
 NOT_COVERED = [
     'the encoder-side packet structure (ms_encode_packet_structure) takes each opus_encode_native result as an oracle within '
@@ -286,6 +289,11 @@ def search(ctx):
     n = 300 if ctx.quick else 4000
     seed = ctx.seed + 500
     eat(_run([h, 'straddle', str(seed), str(n)]), 'layout-straddle', 'harness: c10_layout straddle %d %d' % (seed, n))
+    # (d2) projection decoders with non-square demixing matrices (channels < streams+coupled), int16 / int24 / float APIs: each
+    #      equals the matrix applied to the stand-alone decoder outputs of the same format
+    n = 150 if ctx.quick else 3000
+    seed = ctx.seed + 800
+    eat(_run([h, 'nonsq', str(seed), str(n)]), 'layout-nonsq', 'harness: c10_layout nonsq %d %d' % (seed, n))
     # (e) corpus case (fixed defect 31272f65): projection decoder creation with a zero cell count, on which the code used to
     #     declare a zero-length array before validating its arguments (run under ASan/UBSan; a sanitizer report is a witness)
     hsan = _harness(ctx, 'c10_layout', 'san')
